@@ -37,6 +37,7 @@ using std::string;
 using std::vector;
 
 static const RootPidStore *g_store = NULL;
+static std::string g_scratch = "/tmp";
 // ONE PidStoreHelper for the whole run (its own store, serializer and deserializer): what the
 // command line tools and the RDM HTTP/RPC code use.
 static ola::rdm::PidStoreHelper *g_helper = NULL;
@@ -226,9 +227,12 @@ static string ldo_op(bool validate, const string &entry, const string &spec) {
     std::auto_ptr<const RootPidStore> st(loader.LoadFromStream(&in, validate));
     return digest_line(st.get());
   }
-  char tmpl[] = "/tmp/C14_ovr_XXXXXX";
-  if (!mkdtemp(tmpl)) return "lx=mkdtemp-failed";
-  string dir = tmpl;
+  // scratch directory next to the case file (under the check's build directory), private to this process
+  string tmpl_s = g_scratch + "/ovr_" + vh::str(static_cast<long>(getpid())) + "_XXXXXX";
+  vector<char> tmpl(tmpl_s.begin(), tmpl_s.end());
+  tmpl.push_back('\0');
+  if (!mkdtemp(&tmpl[0])) return "lx=mkdtemp-failed";
+  string dir = &tmpl[0];
   bool ok = true;
   for (size_t i = 0; i < files.size(); i++)
     ok = ok && symlink((string(PID_DATA_DIR) + "/" + files[i]).c_str(), (dir + "/" + files[i]).c_str()) == 0;
@@ -654,6 +658,11 @@ static string handle(const string &p) {
 
 int main(int argc, char **argv) {
   ola::InitLogging(ola::OLA_LOG_NONE, ola::OLA_LOG_NULL);
+  if (argc > 1) {
+    string f = argv[1];
+    size_t sl = f.rfind('/');
+    g_scratch = sl == string::npos ? "." : f.substr(0, sl);
+  }
   g_store = RootPidStore::LoadFromDirectory(PID_DATA_DIR, true);
   // a load failure is itself a violation: every case then reports load=failed
   if (!g_store) fprintf(stderr, "LOAD-FAILED\n");
